@@ -114,9 +114,12 @@ CELER_FUNCTION bool CutoffView::apply_post_interaction() const
  */
 CELER_FUNCTION bool CutoffView::apply(Secondary const& secondary) const
 {
-    return (secondary.particle_id == params_.ids.gamma
-            || secondary.particle_id == params_.ids.electron
-            || secondary.particle_id == params_.ids.positron)
+    // A secondary already cleared by the interactor has a null particle ID
+    // (which would compare equal to an absent particle type in 'ids')
+    return secondary.particle_id
+           && (secondary.particle_id == params_.ids.gamma
+               || secondary.particle_id == params_.ids.electron
+               || secondary.particle_id == params_.ids.positron)
            && secondary.energy < this->energy(secondary.particle_id);
 }
 
